@@ -2,6 +2,7 @@ package main
 
 import (
 	"fmt"
+	"go/constant"
 	"go/token"
 	"go/types"
 	"sort"
@@ -263,9 +264,60 @@ func init() {
 					continue
 				}
 				n++
-				guarded := guardedBy(site.Block(), func(cnd ssa.Value, want bool) bool {
-					return isCallNamed(cnd, "helpers.IsTruthy") != nil && !want
-				})
+				// `the value is falsy` as a branch outcome: IsTruthy(v) false, or `not found` of a scope lookup
+				falsyEdge := func(cnd ssa.Value, want bool) bool {
+					if isCallNamed(cnd, "helpers.IsTruthy") != nil && !want {
+						return true
+					}
+					if ex, ok := cnd.(*ssa.Extract); ok && ex.Index == 1 && !want {
+						if cl, ok := ex.Tuple.(*ssa.Call); ok {
+							switch calleeName(&cl.Call) {
+							case "(*vuego.Stack).Resolve", "(*vuego.Stack).Lookup":
+								return true
+							}
+						}
+					}
+					// the condition's verdict as a value (v-show and v-if share one evaluation): false
+					if ex, ok := cnd.(*ssa.Extract); ok && ex.Index == 0 && !want {
+						if cl, ok := ex.Tuple.(*ssa.Call); ok && calleeName(&cl.Call) == "(*vuego.Vue).evalConditionExpr" {
+							return true
+						}
+					}
+					return false
+				}
+				// a boolean computed first and tested later (`hidden := …; if hidden`): true only where every
+				// way it becomes true says `falsy`
+				var saysFalsy func(v ssa.Value, want bool, depth int) bool
+				saysFalsy = func(v ssa.Value, want bool, depth int) bool {
+					if depth > 6 {
+						return false
+					}
+					if u, ok := v.(*ssa.UnOp); ok && u.Op == token.NOT {
+						return saysFalsy(u.X, !want, depth+1)
+					}
+					if falsyEdge(v, want) {
+						return true
+					}
+					if ph, ok := v.(*ssa.Phi); ok {
+						for _, a := range alternatives(ph, ph.Block()) {
+							if k, isK := a.V.(*ssa.Const); isK {
+								if constant.BoolVal(k.Value) != want {
+									continue // this way the test fails: the write is not reached
+								}
+								if !a.holdsFor(falsyEdge) {
+									return false
+								}
+								continue
+							}
+							if !saysFalsy(a.V, want, depth+1) {
+								return false
+							}
+						}
+						return true
+					}
+					return false
+				}
+				guarded := guardedBy(site.Block(), func(cnd ssa.Value, want bool) bool { return saysFalsy(cnd, want, 0) })
 				c.check(guarded, fmt.Sprintf("evalVShow: style write#%d", n), p.instrPos(site), "only when !IsTruthy(value)", "the style attribute is written on a path where the v-show value may be truthy")
 				if nm == "(*vuego.Vue).setStyleProperty" {
 					prop, _ := constString(site.Common().Args[2])
